@@ -152,3 +152,22 @@ add(Contract('ghost_clients:rt1_move',
              raises={},
              known={'post#0': dict(id='K1a', case="self.reference == 'begins' and base != 0")},
              modifies=['fragments.current_offset'], returns='int'))
+
+# ---------------------------------------------------------------- C07: Bits._compile establishes BitsWF for every member
+# (all of BitsWF except that the shared integer's slot name "_bits__<names>" differs from the members' names:
+#  string formatting, assumed)
+add(Contract('ghost_clients:bits_compile_establishes_wf',
+             params={'self': 'ref:Bits', 'position': 'int', 'fields': 'list', 'bisturi_conf': 'conf', 'j': 'int'},
+             requires=["0 <= position and position < len(fields)", "allocated(fields)", "FieldsWF(fields)",
+                       "same(tupitem(fields[position], 2, 1), self)", "not self.iam_first and not self.iam_last"],
+             ensures=["implies(self.iam_last and RUN_LO(self, position) <= j and j <= position,"
+                      "  FLD(fields, j).ghost_w >= 1 and FLD(fields, j).shift >= 0"
+                      "  and FLD(fields, j).mask == lshift(pow2(FLD(fields, j).ghost_w) - 1, FLD(fields, j).shift)"
+                      "  and IntCompiled(FLD(fields, j).I) and FLD(fields, j).I.is_bigendian and not FLD(fields, j).I.is_signed"
+                      # the run's bytes: one integer of exactly total-width/8 bytes shared by all members
+                      "  and same(FLD(fields, j).I, self.I)"
+                      "  and 8 * self.I.byte_count == wsum(fields, RUN_LO(self, position), position + 1))"],
+             raises={'ByteBoundaryError': []},
+             modifies=['self.iam_first', 'self.iam_last', 'self.members', 'self.members[*]',
+                       'Bits.shift[*]', 'Bits.mask[*]', 'Bits.I[*]', 'Bits.bit_count[*]'],
+             allocates=True, returns='list'))
